@@ -385,6 +385,10 @@ async fn actor(i: usize, a: Actor, data: Vec<u8>, reg: Rc<Registry>, errs: Errs,
             no_time_wait(&c);
             no_time_wait(&srv);
             keep.borrow_mut().push(Box::new(srv));
+            // a send that fails when it is issued (the socket is shut down for writing) still owes its notification
+            if sim::flip("zc.broken", 1, 3) {
+                unsafe { libc::shutdown(std::os::fd::AsRawFd::as_raw_fd(&c), libc::SHUT_WR) };
+            }
             let buf = TBuf::from_vec(&reg, data.clone());
             let ptr = buf.v.as_ptr() as usize;
             let BufResult(res, ready) = c.write_zerocopy(buf).await;
